@@ -14,7 +14,7 @@ CLAUSE = {
     "_for_update_of": "for-update",
     "_insert_table": "insert", "_select_into": "insert", "_columns": "insert", "_values": "insert",
     "_replace": "insert", "_ignore": "insert",
-    "_update_table": "update", "_updates": "update", "_delete_from": "delete",
+    "_update_table": "update-target", "_updates": "set", "_delete_from": "delete",
     "_with": "with", "_unions": "set-operation",
     "_on_conflict": "on-conflict", "_on_conflict_fields": "on-conflict", "_on_conflict_do_nothing": "on-conflict",
     "_on_conflict_do_updates": "on-conflict", "_on_conflict_wheres": "on-conflict",
@@ -36,6 +36,6 @@ METHOD_CLAUSE = {
     "having": {"having"}, "insert": {"insert"}, "into": {"insert"}, "join": {"join"}, "limit": {"limit"},
     "modifier": {"select"}, "offset": {"offset"}, "on_conflict": {"on-conflict"}, "orderby": {"order-by"},
     "prewhere": {"prewhere"}, "replace": {"insert"}, "returning": {"returning"}, "rollup": {"group-by"},
-    "select": {"select"}, "set": {"update"}, "top": {"select"}, "update": {"update"}, "use_index": {"use-index"},
+    "select": {"select"}, "set": {"set"}, "top": {"select"}, "update": {"update-target"}, "use_index": {"use-index"},
     "where": {"where", "on-conflict"}, "with_": {"with"}, "with_totals": {"group-by"},
 }
